@@ -1,9 +1,9 @@
 package props
 
 import (
-	"runtime/debug"
 	"fmt"
 	"reflect"
+	"runtime/debug"
 	"strings"
 	"testing"
 
